@@ -30,7 +30,7 @@ def exact_and_mag(form, v):
 class P(Prop):
     ID = "C10"
     MODULE = "C10"
-    THEOREMS = ["C10_thr_values", "C10_form_series", "C10_form_closed", "C10_trunc", "C10_no_jump", "C10_at_one"]
+    THEOREMS = ["C10_thr_values", "C10_form_series", "C10_form_closed", "C10_trunc", "C10_no_jump", "C10_at_one", "C10_series_accuracy_float", "C10_series_hypotheses_hold"]
     KERNELS = [NAME, "taylor::exp_5_taylor", "taylor::exp_5_tail_taylor", "taylor::exp_5_tail_anal"]
     RULE = ("IntOfLogPoly4::evaluate (and the exponential-tail kernels on their own) run bit-exactly model vs crate with libm values "
             "shared through tables; arguments: every k-th float within 4096 ulps of v=1 and of the two switch points e^1.71, e^-1.72 "
@@ -83,6 +83,21 @@ class P(Prop):
             for nm in ("taylor::exp_5_taylor", "taylor::exp_5_tail_taylor", "taylor::exp_5_tail_anal"):
                 out.append(K.kernel_case(nm, [x], cls="tail", libm=True))
         return out
+
+    def hyp_term(self, case, h):
+        # hypotheses of C10_series_accuracy_float: the implementation's own window test on x^ = -(ln_f v) and `safe` for the
+        # libm-free series term at (k, c1..c4, u, v, x^); ln_f v is the value the platform returned in this run
+        if case.get("op") != "k" or case.get("name") != NAME:
+            return None
+        lt = dict((a, b) for a, b in h.get("ln", []))
+        lb = lt.get(case["args"][6])
+        if lb is None:
+            return None
+        xh = lb ^ C.SIGN
+        x = C.fl(xh)
+        if not (-1.71 < x < 1.72):
+            return None
+        return "hyp_safe [e_series] %s" % C.zlist(list(case["args"]) + [xh])
 
     def coq_term(self, case, h):
         return K.kernel_term(case, h)
